@@ -34,15 +34,23 @@ PipeScn(s) == {x \in {[With(s, fs) EXCEPT !.cut = c]
                         : fs \in SeqsUpTo({"match", "prematch", "nomatch", "binary"}, MaxPipeFiles), c \in 0..(Cuts - 1)}
                  : ClosedOK(x)}
 
-MCSeeds == (IF "faults" \in Fams THEN FaultSeeds ELSE {})
+\* ---- family "pre": an unreadable file handed to a lenient preprocessor, alone and next to healthy files
+PreFiles == {<<"preperm">>, <<"preperm", "match">>, <<"match", "preperm">>, <<"preperm", "nomatch">>, <<"prematch", "preperm">>,
+             <<"preperm", "preperm">>}
+PreSeeds == {[Base EXCEPT !.fam = "pre", !.mode = m, !.threads = t, !.naming = n, !.nomsg = nm]
+               : m \in Modes, t \in ThreadSet, n \in Namings, nm \in NoMsgs}
+PreScn(s) == {With(s, fs) : fs \in PreFiles}
+
+MCSeeds == (IF "pre" \in Fams THEN PreSeeds ELSE {}) \cup (IF "faults" \in Fams THEN FaultSeeds ELSE {})
       \cup (IF "args" \in Fams THEN ArgSeeds ELSE {})
       \cup (IF "pipe" \in Fams THEN PipeSeeds ELSE {})
 
-MCScenariosOf(s) == CASE s.fam = "faults" -> FaultScn(s)
+MCScenariosOf(s) == CASE s.fam = "pre" -> PreScn(s)
+                      [] s.fam = "faults" -> FaultScn(s)
                       [] s.fam = "args"   -> ArgScn(s)
                       [] s.fam = "pipe"   -> PipeScn(s)
 
-AllKinds == Kinds \ {"prematch"}       \* (a working preprocessor takes part in the closed-pipe family only)
+AllKinds == Kinds \ {"prematch", "preperm"}       \* (a working preprocessor takes part in the closed-pipe family only)
 FiveKinds == {"match", "nomatch", "binary", "perm", "prefail"}
 OnlyFalse == {FALSE}
 Both == {FALSE, TRUE}
